@@ -143,9 +143,22 @@ def gen_commands(rng, enum_names_by_kind, count, n_inputs):
             ln = rng.choice([1, 2, 3, 8, 40, 255, rng.randint(1, 255)])
             sel = rng.random()
             if sel < 0.4:
-                raw = bytes(rng.randrange(256) for _ in range(ln))
+                for _ in range(50):
+                    raw = bytes(rng.randrange(256) for _ in range(ln))
+                    if sum(raw.count(c) for c in b"*+{") <= 1:
+                        break
+                else:
+                    raw = b"\xff\x00\x01"
             elif sel < 0.7:
-                raw = "".join(rng.choice("()[]{}*+?|\\^$.ab-") for _ in range(ln)).encode()
+                # random metacharacter soup; at most one unbounded quantifier, so that libstdc++'s
+                # backtracking matcher cannot be driven into exponential time on a 255-byte name
+                # (nested quantifiers like ".*+" are accepted by std::regex and never finish)
+                for _ in range(50):
+                    raw = "".join(rng.choice("()[]{}*+?|\\^$.ab-") for _ in range(ln)).encode()
+                    if sum(raw.count(c) for c in b"*+{") <= 1:
+                        break
+                else:
+                    raw = b"(a|b)[ab]\\"
             else:
                 raw = rng.choice([b"(", b"[a-", b"a{2,1}", b"*a", b"\\", b"(?<=a)b", b"[[:alpha:]]+", b"a{99999}", b"((((((((((a))))))))))",
                                   b"\\1", b"(a)\\1", b"[z-a]", b"a{,", b"\x00abc", b"ab\x00cd", b"\xff\xfe", b"(?:a|b)*", b"x{3,2}"])
